@@ -71,6 +71,11 @@ def build_engine(world, sim, yp_class, ctl, warmup=False):
     from yldprolog.engine import unify
     native_keys = {(n, a) for n, a, _, _ in world['native']}
     src = progs.world_source(world, without=native_keys)
+    for n, a, style, _ in world['native']:
+        if style == 'delegate':
+            rows_ = [rows for n2, a2, rows in world['facts'] if (n2, a2) == (n, a)][0]
+            if rows_:
+                src += progs.fact_source(n + '_impl', rows_) + '\n'
     try:
         with contextlib.redirect_stderr(io.StringIO()):
             code = compile_prolog_from_string(src)
@@ -108,7 +113,7 @@ def build_engine(world, sim, yp_class, ctl, warmup=False):
         except Exception:
             pass
     for n, a, style, yv in world['native']:
-        f, ar = progs.make_native(yp, unify, rows_of[(n, a)], a, style, yv, ctl)
+        f, ar = progs.make_native(yp, unify, rows_of[(n, a)], a, style, yv, ctl, name=n)
         yp.register_function(n, f, arity=ar)
     if world.get('has_n'):
         f, ar = progs.make_native(yp, unify, [[['a', 'a']], [['a', 'c']], [['f', 'f', [['v', 0]]]]], 1, 'explicit', False, ctl)
